@@ -1065,6 +1065,7 @@ func (s *sim) deliverHead() {
 	if s.commit != nil {
 		e.Count("fault.response_during_commit")
 	}
+	recheckRm := false
 	ver := s.appVersion()
 	v := verdict{}
 	if r.txi >= 0 {
@@ -1111,8 +1112,16 @@ func (s *sim) deliverHead() {
 		}
 		if !v.ok {
 			e.Count("fault.recheck_verdict_reject")
+			// A failed recheck drops the tx from the cache only together with its pool entry: if
+			// the tx has left the pool meanwhile (evicted, expired, committed) the response is
+			// ignored and the cache keeps it. So the removal is certain only if the tx is in the
+			// list right now and the response is processed right away (see below).
 			if !s.cfg.Bool("keep_invalid") {
-				s.pendingRm = append(s.pendingRm, r.txi)
+				for _, i := range s.listTxs() {
+					if i == r.txi {
+						recheckRm = true
+					}
+				}
 			}
 		}
 	}
@@ -1129,9 +1138,14 @@ func (s *sim) deliverHead() {
 	}
 	s.settle()
 	if s.ver == 1 && s.mutexW > 0 {
+		// a recheck handler that waits for the lock may find its tx gone after the update:
+		// whether the cache drops it is uncertain, the reference keeps it (the safe side)
 		e.Count("probe.handler_blocked_on_commit_lock")
 	} else {
 		// the response has been processed (v0 callbacks take no lock)
+		if recheckRm {
+			s.pendingRm = append(s.pendingRm, r.txi)
+		}
 		s.flushPendingRm()
 	}
 	s.absorb()
